@@ -49,13 +49,15 @@ def lower():
     wd = tempfile.mkdtemp(prefix='mv_ast_', dir=os.environ.get('MV_SCRATCH', '/var/tmp'))
     try:
         docs = cxx2c.dump_ast(TU_CPP, wd, repo=REPO)
-        L = cxx2c.Lowerer(docs, memberwise=('status_t',), follow=lambda qn, d: any(x in qn for x in FOLLOW))
+        L = cxx2c.Lowerer(docs, memberwise=('status_t',), vdispatch=('QueryFilter::Matches',), follow=lambda qn, d: any(x in qn for x in FOLLOW))
         roots = []
         for rn in [k for k in L.records if 'NumericQueryFilter<' in k]:
             roots += cxx2c.find_functions(L, record=rn.replace('muscle::', ''), names=['Matches', 'MatchesAux'])
         for cls in ('WhatCodeQueryFilter', 'ValueExistsQueryFilter'):
             roots += cxx2c.find_functions(L, record=cls, names=['Matches'])
-        if len(roots) < 16:
+        for cls in ('MinimumThresholdQueryFilter', 'MaximumThresholdQueryFilter', 'XorQueryFilter'):
+            roots += cxx2c.find_functions(L, record=cls, names=['Matches'])
+        if len(roots) < 19:
             raise cxx2c.Unsupported('only %d Matches functions found: extraction broke' % len(roots))
         L.lower_all(roots)
     finally:
@@ -158,6 +160,49 @@ def jobs(tier):
     h5 = ('\nvoid h_main(void) { struct WhatCodeQueryFilter *f; struct ConstRef_Message *m; struct DataNode *d; %s(f, m, d); '
           '__CPROVER_assert(0, "MV_CANARY: end of harness reachable"); }\n' % wc)
     mk('qf_WhatCode_Matches', wc, c5, h5, replace=[CALLOP], functions=[(QF_CPP, 'WhatCodeQueryFilter::Matches')])
+
+    # --- combinators: MinimumThreshold (AND/OR), MaximumThreshold (NAND/NOR/NOT), Xor over a ghost list of children.
+    # Children are opaque: child i is absent (NULL ref) or answers mv_child_match[i]; the stubs are ordinary C over those ghosts
+    # (assumed behaviour of Queue<ConstQueryFilterRef>::GetNumItems/operator[] and ConstRef::operator()).
+    nk = 4 if tier == 'quick' else 6
+    GN, IX, RC = ('_ZNK6muscle5QueueINS_8ConstRefINS_11QueryFilterEEEE11GetNumItemsEv', '_ZNK6muscle5QueueINS_8ConstRefINS_11QueryFilterEEEEixEj', '_ZNK6muscle8ConstRefINS_11QueryFilterEEclEv')
+    VC = '_ZNK6muscle11QueryFilter7MatchesERNS_8ConstRefINS_7MessageEEEPKNS_8DataNodeE__vcall'
+    model = ('#define MV_NK %d\n' % nk + r"""
+unsigned int mv_nk; _Bool mv_child_null[MV_NK], mv_child_match[MV_NK]; unsigned int mv_calls[MV_NK]; unsigned int mv_kc;
+struct ConstRef_QueryFilter mv_refs[MV_NK]; char mv_child_tag[MV_NK]; struct ConstRef_Message *mv_the_msg; struct DataNode *mv_the_node;
+unsigned int %(GN)s(struct Queue_ConstRef_QueryFilter *this) { return mv_nk; }
+struct ConstRef_QueryFilter *%(IX)s(struct Queue_ConstRef_QueryFilter *this, unsigned int i) { __CPROVER_assert(i < mv_nk, "Queue::operator[] with a valid index"); return &mv_refs[i]; }
+struct QueryFilter *%(RC)s(struct ConstRef_QueryFilter *this) { long i = this - mv_refs; __CPROVER_assert(i >= 0 && i < MV_NK, "a child reference of this filter"); return mv_child_null[i] ? (struct QueryFilter *)0 : (struct QueryFilter *)&mv_child_tag[i]; }
+_Bool %(VC)s(struct QueryFilter *this, struct ConstRef_Message *msg, struct DataNode *optNode)
+{
+   long i = (char *)this - mv_child_tag;
+   __CPROVER_assert(i >= 0 && i < MV_NK && !mv_child_null[i], "Matches() is only called on an existing child");
+   __CPROVER_assert(msg == mv_the_msg && optNode == mv_the_node, "children are asked about the same Message and node");
+   mv_calls[i]++;
+   return mv_child_match[i];
+}
+static unsigned int mv_count(void) { unsigned int c = 0; for (unsigned int i = 0; i < MV_NK; i++) if (i < mv_nk && !mv_child_null[i] && mv_child_match[i]) c++; return c; }
+#define MV_MINU(a, b) (((a) < (b)) ? (a) : (b))
+#define MV_COMB_PRE(t) (__CPROVER_is_fresh(t, sizeof(*(t))) && mv_nk <= MV_NK && mv_kc < MV_NK && mv_calls[mv_kc] == 0 && msg == mv_the_msg && optNode == mv_the_node)
+#define MV_COMB_FRAME __CPROVER_assigns(__CPROVER_object_whole(mv_calls))
+""" % dict(GN=GN, IX=IX, RC=RC, VC=VC))
+    hc = ('\nvoid h_main(void) { unsigned int n_, k_; mv_nk = n_; mv_kc = k_; struct ConstRef_Message *m; struct DataNode *d; mv_the_msg = m; mv_the_node = d;\n'
+          '  for (unsigned int i = 0; i < MV_NK; i++) { _Bool a_, b_; mv_child_null[i] = a_; mv_child_match[i] = b_; mv_calls[i] = 0; }\n'
+          '  struct %s *f; %s(f, m, d); __CPROVER_assert(0, "MV_CANARY: end of harness reachable"); }\n')
+    for cls, field, spec, doc in (
+            ('MinimumThresholdQueryFilter', '_minMatches', '(mv_nk == 0 || mv_count() > MV_MINU(this->_minMatches, mv_nk - 1))', 'matches iff more than min(n, numKids-1) children match; no children: true'),
+            ('MaximumThresholdQueryFilter', '_maxMatches', '(mv_nk != 0 && mv_count() <= MV_MINU(this->_maxMatches, mv_nk - 1))', 'matches iff no more than min(n, numKids-1) children match; no children: false'),
+            ('XorQueryFilter', None, '((mv_count() & 1u) == 1u)', 'matches iff an odd number of children match')):
+        fn = find(L, r'^_ZNK6muscle%d%s7MatchesE' % (len(cls), cls))
+        cc = (model + '/* documented: %s */\n_Bool %s(struct %s *this, struct ConstRef_Message *msg, struct DataNode *optNode)\n'
+              '__CPROVER_requires(MV_COMB_PRE(this))\nMV_COMB_FRAME\n'
+              '__CPROVER_ensures(__CPROVER_return_value == %s)\n'
+              '/* no child is asked twice */\n__CPROVER_ensures(mv_calls[mv_kc] <= 1)\n;\n' % (doc, fn, cls, spec))
+        hdr, body = L.sliced([fn])
+        tu = hdr + PRE + cc + '\n' + body + hc % (cls, fn)
+        J.append(Job('qf_%s_Matches' % cls, tu, 'h_main', enforce=[fn], loops=False, klass='bounded', unwind=nk + 2,
+                     bound='at most %d children (each absent, matching or not matching); loops unwound with unwinding assertions' % nk,
+                     functions=[(QF_CPP, cls + '::Matches')] + ([(QF_CPP, 'ThresholdMaxAux')] if field else []), timeout=600, split=0))
     return J
 
 
@@ -169,7 +214,7 @@ def meta(tier):
         assumptions=['Message::FindData and ConstRef<Message>::operator() are opaque with the assumed contracts printed in props/c14.py (FindData: one lookup, succeeds iff the item exists, *data addresses the item)',
                      'floating point comparisons use CBMC\'s IEEE-754 model', 'layout of opaque base subobjects (RefCountable, String) is not modelled', 'single thread'],
         assumed_contracts=['muscle::Message::FindData', 'muscle::ConstRef<Message>::operator()'],
-        dropped=['logging lowered to no-ops'], not_lowered=['MultiQueryFilter combinators (children are Queue<ConstQueryFilterRef>)', 'SetFromArchive / SaveToArchive', 'expression parser',
+        dropped=['logging lowered to no-ops'], not_lowered=['SetFromArchive / SaveToArchive', 'expression parser',
                                                             'StringQueryFilter, RawDataQueryFilter, MessageQueryFilter'],
         explanation='Loop-free: every obligation is decided for all operand values, operators (all 256 byte values), mask operators and lookup outcomes. '
                     'Matches() is enforced with an empty frame (it may not modify anything) and against the documented default rule; the opaque FindData contract '
